@@ -85,6 +85,36 @@ func tree(repo repository.RepoData, blob []byte, et int) repository.Hash {
 	return th
 }
 
+// treeUnsorted writes the same tree by hand with its entries out of git's canonical order (the pack before the clocks): nothing
+// in the rule depends on the order in which a tree lists its entries.
+func treeUnsorted(dir string, repo repository.RepoData, blob []byte, et int) repository.Hash {
+	empty, err := repo.StoreData([]byte{})
+	hx.Must(err)
+	bh, err := repo.StoreData(blob)
+	hx.Must(err)
+	r, err := gogit.PlainOpen(dir)
+	hx.Must(err)
+	// go-git's own encoder refuses such a tree: the object is written byte by byte ("<mode> <name>\0<20 bytes of hash>" per entry)
+	obj := r.Storer.NewEncodedObject()
+	obj.SetType(plumbing.TreeObject)
+	wr, err := obj.Writer()
+	hx.Must(err)
+	for _, e := range []struct {
+		name string
+		h    repository.Hash
+	}{{"ops", bh}, {"version-4", empty}, {fmt.Sprintf("edit-clock-%d", et), empty}, {"create-clock-1", empty}} {
+		ph := plumbing.NewHash(e.h.String())
+		_, err = fmt.Fprintf(wr, "100644 %s\x00", e.name)
+		hx.Must(err)
+		_, err = wr.Write(ph[:])
+		hx.Must(err)
+	}
+	hx.Must(wr.Close())
+	h, err := r.Storer.SetEncodedObject(obj)
+	hx.Must(err)
+	return repository.Hash(h.String())
+}
+
 func emptyPackBlob(author identity.Interface, altered bool) []byte {
 	if altered {
 		return []byte(fmt.Sprintf(`{"author":{"id":%q}, "ops":[]}`, author.Id().String()))
@@ -152,7 +182,13 @@ func one(v Vec) (why string) {
 	}
 	// the commit under test: a single-commit bug written by hand at logical time et
 	blob := packBlob(author, "the content that was signed", 1_600_000_000)
-	th := tree(w, blob, v.C.Et)
+	mkTree := func(blob []byte) repository.Hash {
+		if v.C.Shape == "unsorted" {
+			return treeUnsorted(filepath.Join(dir, "W"), w, blob, v.C.Et)
+		}
+		return tree(w, blob, v.C.Et)
+	}
+	th := mkTree(blob)
 	var parents []repository.Hash
 	if v.C.Shape == "empty" {
 		blob = packBlob(creator, "root by an author without keys", 1_600_000_000)
@@ -174,7 +210,7 @@ func one(v Vec) (why string) {
 		if v.C.Altered {
 			// same signature, other content: take the signed commit apart with go-git and swap the tree
 			blob2 := packBlob(author, "content put in place after signing", 1_600_000_001)
-			th2 := tree(w, blob2, v.C.Et)
+			th2 := mkTree(blob2)
 			if v.C.Shape == "empty" {
 				blob2 = blob // the root is what it was: the commit without operations gets another (equivalent) pack
 				th2 = treeNonRoot(w, emptyPackBlob(author, true), v.C.Et+shift)
